@@ -286,8 +286,41 @@ def iterExp (elems : List String) (ops : List String) : Exp :=
           | [] => a == "none" && go ops' as' []
           | x :: r => a == "some " ++ x && go ops' as' r
         else if op == "h" then hintBrackets a rest.length && go ops' as' rest
+        else if op.startsWith "t" then
+          -- `nth(k)`: the element k places further on, and the iterator stands behind it
+          match (op.drop 1).toString.toNat? with
+          | none => false
+          | some k => match rest.drop k with
+            | [] => a == "none" && go ops' as' []
+            | x :: r => a == "some " ++ x && go ops' as' r
         else go ops' as' rest
     go ops answers elems
+
+/-- `t<k>` is `Iterator::nth(k)`; none of the modelled iterators overrides it, so it is `k + 1` calls of `next` of which
+    the last answer is returned: the request list is expanded for the model and the answers are folded back -/
+def expandNth (bound : Nat) (ops : List String) : List String × List Nat :=
+  ops.foldr (fun op (acc : List String × List Nat) =>
+    if op.startsWith "t" then
+      match (op.drop 1).toString.toNat? with
+      -- more calls than there are elements left (plus the ones that find the end) change nothing: `k` may be `usize::MAX`
+      | some k => let g := min (k + 1) bound; (List.replicate g "n" ++ acc.1, g :: acc.2)
+      | none => (op :: acc.1, 1 :: acc.2)
+    else (op :: acc.1, 1 :: acc.2)) ([], [])
+
+def collapseNth (groups : List Nat) (answers : List String) : List String :=
+  match groups with
+  | [] => []
+  | g :: gs =>
+    let mine := answers.take g
+    if mine.isEmpty then []
+    else if mine.length < g then [mine.getLast!]      -- cut short by a panic inside the group
+    else mine.getLast! :: collapseNth gs (answers.drop g)
+
+def withNth (bound : Nat) (run : List String → String) (ops : List String) : String :=
+  if ops.any (·.startsWith "t") then
+    let (eops, groups) := expandNth bound ops
+    ";".intercalate (collapseNth groups ((run eops).splitOn ";"))
+  else run ops
 
 /-- run `n`/`h` requests on the model of the index iterators (`IndexIter.next`, `IndexIter.sizeHint`); `acc`
     gives the printed answer of `access(i)` (`none` = the model panicked) -/
@@ -800,7 +833,7 @@ def mutate (c : Cfg) (o : Obj) (meth : String) (a : List String) : Option (Optio
 def iterate (c : Cfg) (o : Obj) (kind arg : String) (ops : List String) : Option Out :=
   let idx (len : R Nat) (acc : Nat → Option String) (elems : List String) : Option Out :=
     match len with
-    | .ok n => some ⟨runIndexIter n acc ops, iterExp elems ops⟩
+    | .ok n => some ⟨withNth (elems.length + 2) (runIndexIter n acc) ops, iterExp elems ops⟩
     | .error _ => some ⟨"panic", iterExp elems ops⟩
   let unw (r : R (Option Nat)) : Option String := match r with | .ok (some v) => some s!"some {v}" | _ => none
   match o, kind with
@@ -810,7 +843,7 @@ def iterate (c : Cfg) (o : Obj) (kind arg : String) (ops : List String) : Option
   | .dopt m _ xs, "iter" => idx m.len (fun p => unw (m.access c p)) (xs.toList.map toString)
   | .ps m xs, "iter" => idx (.ok m.len) (fun p => unw (m.access c p)) (xs.toList.map toString)
   | .wm _ m xs, "iter" => idx (.ok m.len) (fun p => unw (m.access c p)) (xs.toList.map toString)
-  | .ef m _ xs, "iter" => (num? arg).map fun k => ⟨runEfIter c m k ops, iterExp ((xs.toList.drop k).map toString) ops⟩
+  | .ef m _ xs, "iter" => (num? arg).map fun k => ⟨withNth (xs.size + 2) (runEfIter c m k) ops, iterExp ((xs.toList.drop k).map toString) ops⟩
   | .bv m s, "unary" => (num? arg).map fun p => ⟨runUnary c m p ops, unaryExp s p ops⟩
   | _, _ => none
 
